@@ -15,7 +15,7 @@ RULE = ("bearer: header shape × token state × token scope × required-scope sp
         "non-trivial = distinct case with an Authorization header")
 ASSUMPTIONS = ["required scope alternatives each name at least one scope word (theorem hypothesis AltsNonEmpty; the degenerate alternative '' is "
                "exercised by the correspondence only)", "str.lower is modelled for ASCII; headers are ASCII",
-               "RFC 9068 acceptance conditions are checked by correspondence with an independent oracle only (no Lean theorem; signature primitives abstract)"]
+               "RFC 9068: the model (Model/JwtAccessToken, Props/C10Jwt) takes the JWS verdict as input; signature primitives are exercised, not modelled"]
 
 U = ["a", "b", "c", "d"]
 HEADERS = [None, "", "Bearer", "Bearer ", " Bearer {t}", "Bearer {t}", "bearer {t}", "BEARER {t}", "BeArEr  {t}", "Bearer\t{t}",
